@@ -1018,10 +1018,11 @@ class Time(AbstractDateTime):
         )
 
     def __add__(self, other: object) -> 'Time':
+        # the time of day is changed modulo 24 hours: whole days never overflow the date
         if isinstance(other, DayTimeDuration):
-            dt = self._dt + other.get_timedelta()
+            dt = self._dt + other.get_timedelta() % datetime.timedelta(days=1)
         elif isinstance(other, datetime.timedelta):
-            dt = self._dt + other
+            dt = self._dt + other % datetime.timedelta(days=1)
         else:
             raise TypeError("wrong type %r for operand %r" % (type(other), other))
         return Time(dt.hour, dt.minute, dt.second, dt.microsecond, dt.tzinfo)
@@ -1031,10 +1032,10 @@ class Time(AbstractDateTime):
             dt1, dt2 = get_comparable_datetimes(self._dt, other._dt)
             return DayTimeDuration.fromtimedelta(dt1 - dt2)
         elif isinstance(other, DayTimeDuration):
-            dt = self._dt - other.get_timedelta()
+            dt = self._dt - other.get_timedelta() % datetime.timedelta(days=1)
             return Time(dt.hour, dt.minute, dt.second, dt.microsecond, dt.tzinfo)
         elif isinstance(other, datetime.timedelta):
-            dt = self._dt - other
+            dt = self._dt - other % datetime.timedelta(days=1)
             return Time(dt.hour, dt.minute, dt.second, dt.microsecond, dt.tzinfo)
         else:
             raise TypeError("wrong type %r for operand %r" % (type(other), other))
